@@ -73,7 +73,7 @@ def plan(ctx):
     t = ctx['tier']
     return [('eu', cc, t) for cc in sorted(EU)] + [('union', w, t) for w in sorted(UNIONS)] + \
            [('superset', w, t) for w in sorted(SUPERSETS)] + [('delegate', w, t) for w in sorted(DELEGATES)] + [('iban', cc, t) for cc in NATIONAL_IBAN + ('generic',)] + \
-           [('wrap', w, t) for w in sorted(WRAPS)] + [('eu-cross', 'all', t)]
+           [('wrap', w, t) for w in sorted(WRAPS)] + [('eu-cross', 'all', t), ('oss', 'oss', t)]
 
 
 def neighbours(v):
@@ -175,6 +175,23 @@ def work(item):
                         x = other + bare
                         n += 1
                         nt += check_eu(x, other, 'cross')
+    elif kind == 'oss':
+        # the one-stop-shop numbers (prefixes EU and IM): eu.vat hands them to eu.oss, and vatin accepts what eu.vat accepts
+        euvat, vatin, oss = mod('eu.vat'), mod('vatin'), mod('eu.oss')
+        vals, t0 = valid_numbers('eu.oss', tier, cap=200 if quick else 3000)
+        tr += t0
+        for v in vals:
+            for x, dev in [(v, 'valid'), (v.lower(), 'lower'), (v[:2] + ' ' + v[2:], 'space')] + [(y, 'edit') for y in neighbours(v)[:120 if quick else 100000]]:
+                n += 1
+                c = outcome(oss.validate, x)
+                w = outcome(euvat.validate, x)
+                if x[:2].upper() in ('EU', 'IM') and acc(w) != acc(c):
+                    viol('dispatch-differs', 'eu.vat', x, 'eu.vat %s but eu.oss %s for %r' % (w[:2], c[:2], x), dev)
+                if acc(w):
+                    nt += 1
+                    o = outcome(vatin.validate, x)
+                    if not acc(o) or o[1] != w[1]:
+                        viol('vatin-differs', 'vatin', x, 'eu.vat.validate(%r) = %r but vatin gives %r' % (x, w[1], o[1:2]), dev + ':' + x[:2].upper())
     elif kind == 'union':
         w = mod(key)
         parts = UNIONS[key]
